@@ -8,22 +8,8 @@ import (
 // Process runs this layering algorithm on the input graph. The graph must be acyclic.
 func (alg Alg) Process(g *graph.DGraph, params graph.Params) {
 	imonitor.PrefixFor(alg)
+	alg.AssignLayers(g, params)
 
-	if len(g.Nodes) == 1 {
-		// a single node defaults to layer zero
-		goto initLayers
-	}
-
-	switch alg {
-	case LongestPath:
-		execLongestPath(g)
-	case NetworkSimplex:
-		execNetworkSimplex(g, params)
-	default:
-		panic("layering: unknown alg value")
-	}
-
-initLayers:
 	size := 0
 	for _, n := range g.Nodes {
 		size = max(size, n.Layer)
@@ -48,5 +34,24 @@ initLayers:
 		if l == nil {
 			g.Layers[i] = &graph.Layer{Index: i}
 		}
+	}
+}
+
+// AssignLayers sets Node.Layer for every node of g and leaves g.Layers alone. The x-coordinate assignment of phase 4
+// runs network simplex on an auxiliary graph whose layers are coordinates: building one Layer per coordinate unit
+// would take memory proportional to the width of the drawing.
+func (alg Alg) AssignLayers(g *graph.DGraph, params graph.Params) {
+	if len(g.Nodes) == 1 {
+		// a single node defaults to layer zero
+		return
+	}
+
+	switch alg {
+	case LongestPath:
+		execLongestPath(g)
+	case NetworkSimplex:
+		execNetworkSimplex(g, params)
+	default:
+		panic("layering: unknown alg value")
 	}
 }
